@@ -107,6 +107,13 @@ fn gdeflate_decode(encoded_value: &RawBytes<'_>) -> Result<Vec<u8>, CodecError> 
         .into());
     }
 
+    // The decoded length must be consistent with the number of pages (untrusted header)
+    if decoded_value_len > num_pages.saturating_mul(GDEFLATE_PAGE_SIZE_UNCOMPRESSED) {
+        return Err(CodecError::Other(
+            "gdeflate header: decoded length exceeds the page count".to_string(),
+        ));
+    }
+
     // Decode the pages
     let decompressor = GDeflateDecompressor::new()?;
     let mut decoded_value = Vec::with_capacity(decoded_value_len);
@@ -121,16 +128,26 @@ fn gdeflate_decode(encoded_value: &RawBytes<'_>) -> Result<Vec<u8>, CodecError> 
         let page_size_compressed = usize::try_from(page_size_compressed).unwrap();
 
         // Get the compressed page data
-        let page_data = &encoded_value[page_offset..page_offset + page_size_compressed];
+        let page_data = page_offset
+            .checked_add(page_size_compressed)
+            .and_then(|page_end| encoded_value.get(page_offset..page_end))
+            .ok_or_else(|| {
+                CodecError::Other("gdeflate page lies outside the encoded value".to_string())
+            })?;
         let in_page = gdeflate_sys::libdeflate_gdeflate_in_page {
             data: page_data.as_ptr().cast(),
             nbytes: page_data.len(),
         };
 
         // Decompress the page
+        // Each page decompresses to at most one uncompressed page (the last page may be shorter)
         let data_out = decoded_value.spare_capacity_mut();
-        let page_size_uncompressed =
-            decompressor.decompress_page(in_page, data_out.as_mut_ptr().cast(), data_out.len())?;
+        let page_size_uncompressed_expected = data_out.len().min(GDEFLATE_PAGE_SIZE_UNCOMPRESSED);
+        let page_size_uncompressed = decompressor.decompress_page(
+            in_page,
+            data_out.as_mut_ptr().cast(),
+            page_size_uncompressed_expected,
+        )?;
 
         unsafe {
             decoded_value.set_len(decoded_value.len() + page_size_uncompressed);
@@ -244,8 +261,7 @@ impl GDeflateDecompressor {
                 &mut actual_out_nbytes,
             )
         };
-        assert_eq!(actual_out_nbytes, out_nbytes_avail);
-        if result == 0 {
+        if result == 0 && actual_out_nbytes == out_nbytes_avail {
             Ok(actual_out_nbytes)
         } else {
             Err(CodecError::Other(
